@@ -1,0 +1,57 @@
+//go:build verif
+
+package common
+
+// Contracts for the verification tooling (build tag "verif"). Comment-only: never compiled into the daemon.
+// The GenericSyncMap methods are verified against these contracts and, being tiny lock wrappers, are
+// expanded at their call sites (`inline`) so that the lock discipline of callers is checked in context.
+
+//@ guard GenericSyncMap.m by mtx
+
+//@ func (*GenericSyncMap).Load
+//@   inline
+//@   requires m != nil
+//@   modifies nothing
+//@   ensures[found] result1 == has(m.m, key)
+//@   ensures[value] has(m.m, key) ==> result0 == m.m[key]
+
+//@ func (*GenericSyncMap).Has
+//@   inline
+//@   requires m != nil
+//@   modifies nothing
+//@   ensures[found] result == has(m.m, key)
+
+//@ func (*GenericSyncMap).Store
+//@   inline
+//@   requires m != nil && m.m != nil
+//@   modifies mapof(m.m)
+//@   ensures[stored] has(m.m, key) && m.m[key] == value
+
+//@ func (*GenericSyncMap).Delete
+//@   inline
+//@   requires m != nil
+//@   modifies mapof(m.m)
+//@   ensures[gone] !has(m.m, key)
+
+//@ func (*GenericSyncMap).DeleteUnsafe
+//@   inline
+//@   requires m != nil
+//@   requires holds(m, "mtx")
+//@   modifies mapof(m.m)
+//@   ensures[gone] !has(m.m, key)
+
+//@ func (*GenericSyncMap).Len
+//@   inline
+//@   requires m != nil
+//@   modifies nothing
+//@   ensures[nonneg] result >= 0
+
+//@ func (*GenericSyncMap).Iterate
+//@   inline
+
+//@ func (*GenericSyncMap).WithLockedValueDo
+//@   inline
+
+//@ func (RemoteUserLogin).Validate
+//@   modifies nothing
+//@   ensures[valid] result == nil <==> (o.Source != nil && o.PID > 0 && o.CredUserID != "")
